@@ -74,9 +74,13 @@ fn check_size(c: &SizeProg) -> Verdict {
     for t in 0..c.tags {
         b = b.add_tag(format!("tag{t}"), [TagType::Platform, TagType::Locale, TagType::Category][t as usize % 3]);
     }
-    let maxv: u64 = if c.version == 1 && c.esize_bytes < 8 { (1u64 << (8 * c.esize_bytes as u32)) - 1 } else { u32::MAX as u64 };
+    // sizes up to 2^40-1 (the documented width of CASC file sizes), further limited by the field width
+    let width_max: u64 = if c.version == 1 && c.esize_bytes < 8 { (1u64 << (8 * c.esize_bytes as u32)) - 1 } else if c.version == 1 { u64::MAX } else { u32::MAX as u64 };
+    let maxv: u64 = width_max.min((1u64 << 40) - 1);
+    let mut total: u128 = 0;
     for i in 0..c.entries {
         let v = if c.big_sizes { maxv - r.below(3).min(maxv) } else { r.below(maxv.min(1 << 20) + 1) };
+        total += v as u128;
         b = b.add_entry(r.bytes(c.ekey_size as usize), v);
         for t in 0..c.tags {
             if r.below(3) == 0 {
@@ -84,8 +88,17 @@ fn check_size(c: &SizeProg) -> Verdict {
             }
         }
     }
+    let over40 = c.version == 2 && total >= (1u128 << 40);
     match b.build() {
-        Ok(m) => roundtrip("size", &m).nontrivial(c.entries >= 2).class_if(c.version == 1, "v1").class_if(c.entries % 8 != 0 && c.tags > 0, "ragged-mask"),
+        Ok(m) => {
+            let mut v = roundtrip("size", &m).nontrivial(c.entries >= 2).class_if(c.version == 1, "v1").class_if(c.entries % 8 != 0 && c.tags > 0, "ragged-mask").class_if(over40, "v2-total>=2^40");
+            if over40 {
+                if let Some(f) = &mut v.fail {
+                    f.key = "C08:size:v2-total-size-over-40-bits-not-refused".into();
+                }
+            }
+            v
+        }
         Err(_) => Verdict::pass().class("builder-refused"),
     }
 }
@@ -138,8 +151,11 @@ fn check_patch_archive(c: &PatchArchiveProg) -> Verdict {
         }
     };
     // model content: every entry of the builder appears with identical fields, in builder order
-    let want: Vec<String> = b.entries().iter().map(|e| format!("{e:?}")).collect();
-    let got: Vec<String> = parsed.blocks.iter().flat_map(|bl| bl.file_entries.iter()).map(|e| format!("{e:?}")).collect();
+    // (build() sorts by target key, so the comparison is on the multiset)
+    let mut want: Vec<String> = b.entries().iter().map(|e| format!("{e:?}")).collect();
+    let mut got: Vec<String> = parsed.blocks.iter().flat_map(|bl| bl.file_entries.iter()).map(|e| format!("{e:?}")).collect();
+    want.sort_unstable();
+    got.sort_unstable();
     if want != got {
         let i = want.iter().zip(&got).position(|(a, b)| a != b).unwrap_or(want.len().min(got.len()));
         return Verdict::fail(
@@ -290,6 +306,7 @@ fn check_bpsv(c: &BpsvProg) -> Verdict {
         doc.set_sequence_number(s);
     }
     let mut added = 0;
+    let mut blank_row = false;
     for _ in 0..c.rows {
         let vals: Vec<String> = types
             .iter()
@@ -314,11 +331,19 @@ fn check_bpsv(c: &BpsvProg) -> Verdict {
                 }
             })
             .collect();
+        let blank = vals.len() == 1 && vals[0].is_empty();
         if doc.add_raw_row(vals).is_ok() {
             added += 1;
+            blank_row |= blank;
         }
     }
-    roundtrip("bpsv", &doc).nontrivial(added >= 2).class_if(c.seqn.is_some(), "seqn")
+    let mut v = roundtrip("bpsv", &doc).nontrivial(added >= 2).class_if(c.seqn.is_some(), "seqn").class_if(blank_row, "row-of-one-empty-field");
+    if blank_row {
+        if let Some(f) = &mut v.fail {
+            f.key = "C08:bpsv:row-of-one-empty-field-serialises-to-a-blank-line-and-is-lost".into();
+        }
+    }
+    v
 }
 
 // ---- ESpec --------------------------------------------------------------------
@@ -377,6 +402,29 @@ fn main() {
             vh_c02::targets::FIXPOINT.store(true, std::sync::atomic::Ordering::SeqCst);
         }
         vh_engine::iso::worker_main(TARGETS);
+    }
+    if args.get(1).map(String::as_str) == Some("debug-root") {
+        // developer aid: vh-c08 debug-root <replay.json>
+        use cascette_formats::root::RootFile;
+        let j: serde_json::Value = serde_json::from_str(&std::fs::read_to_string(&args[2]).unwrap()).unwrap();
+        let data = hex::decode(j["case"]["input"].as_str().unwrap()).unwrap();
+        let sum = |p: &RootFile| format!("version={:?} header={:?} blocks={:?}", p.version, p.header, p.blocks.iter().map(|b| (b.header.num_records, b.header.content_flags, b.header.locale_flags, b.records.len())).collect::<Vec<_>>());
+        let p1 = <RootFile as CascFormat>::parse(&data).unwrap();
+        println!("p1: {}", sum(&p1));
+        let b1 = p1.build();
+        println!("b1: {:?}", b1.as_ref().map(|b| (b.len(), hex::encode(&b[..b.len().min(48)]))));
+        if let Ok(b1) = b1 {
+            let p2 = <RootFile as CascFormat>::parse(&b1);
+            match p2 {
+                Ok(p2) => {
+                    println!("p2: {}", sum(&p2));
+                    let b2 = p2.build();
+                    println!("b2: {:?}", b2.as_ref().map(|b| (b.len(), hex::encode(&b[..b.len().min(48)]))));
+                }
+                Err(e) => println!("p2 err: {e}"),
+            }
+        }
+        return;
     }
     let mut ck = Check::from_args("C08", "exploration");
     let tier = ck.tier;
